@@ -325,7 +325,9 @@ fn roundtrip(m: &Model, cells: &[Cell], orig: &Buffer, a: &Buffer) -> Result<(),
     if let Some(d) = same_picture(orig, a, m.fmt.embeds_font()) {
         let pal = m.palette8();
         let class = match d.field {
-            "height" if m.h < 25 && a.get_height() == 25 => "|saved<25_loaded_25",
+            "height" if matches!(m.fmt, Fmt::Xb | Fmt::Adf) && m.h < 25 && a.get_height() == 25 => "|saved<25_loaded_25",
+            // the size went wrong on a file whose SAUCE trailer carries comment lines: the trailer is what delimits the content
+            "height" | "width" if m.sauce && matches!(m.sauce_meta, 1 | 2 | 3 | 5) => "|sauce_comment_lines",
             // Tundra: no foreground command has been written yet (all cells so far are black on the writer's side)
             "fg" if m.fmt == Fmt::Tnd && (0..=d.cell.unwrap_or(0)).all(|k| pal[cells[k].fg as usize] == [0, 0, 0]) => "|black_before_first_fg_command",
             "fg" | "bg" | "char" | "blink" | "glyph" | "cell_missing" if m.fmt == Fmt::Xb => {
@@ -378,7 +380,7 @@ fn buffer_class(fmt: Fmt, a: &Buffer, opts: &icy_engine::SaveOptions) -> (&'stat
         }
         Fmt::Tnd => {
             if (0..w * h).any(|i| (1..=6).contains(&(cell(i).ch as u32))) {
-                return ("|ctrl_char", true);
+                return ("|ctrl_char", false);
             }
         }
         Fmt::Bin => {
@@ -414,8 +416,10 @@ fn resave(fmt: Fmt, a: &Buffer, opts: &icy_engine::SaveOptions) -> Result<(), (S
             return Err((format!("{f}|resave{class}"), format!("[{}] {msg}", d.field)));
         }
         let w = a.get_width().max(1);
-        let hc = if d.field == "height" && a.get_height() < 25 && b.get_height() == 25 {
+        let hc = if d.field == "height" && matches!(fmt, Fmt::Xb | Fmt::Adf) && a.get_height() < 25 && b.get_height() == 25 {
             "|saved<25_loaded_25"
+        } else if matches!(d.field, "height" | "width") && opts.save_sauce && a.get_sauce().as_ref().is_some_and(|s| !s.comments.is_empty()) {
+            "|sauce_comment_lines"
         } else if fmt == Fmt::Tnd && d.field == "fg" && (0..=d.cell.unwrap_or(0) as i32).all(|k| shown(a, k % w, k / w).fg == (0, 0, 0)) {
             // same input class as the round-trip key: the writer has not emitted a foreground command yet
             "|black_before_first_fg_command"
